@@ -17,3 +17,8 @@ CHECKS["C02"] = ("exploration",
   "Guard histories (acquire/release/read/write incl. panicking accessors, through &State and parent scopes) are enumerated exhaustively to a length bound on a shadowing layout and generated randomly over layouts; every request's grant/refusal and error kind is compared with a per-cell readers/writer automaton and every read with the last written value. try_get_multiple_mut is instantiated for all 117 tuples of arity 2-4 over 3 types and ~250 structured tuples of arity 5-8 over 8 types, each run against several registry layouts: duplicates/missing must err, otherwise references must be pairwise distinct, resolve to the innermost instance and writes must land only there. holding is exercised in nestings up to depth 3 (and deeper randomly) with registry sub-histories as bodies and failures injected at every level.",
   "Aliasing that neither yields equal addresses nor misdirected writes is only visible to the ASan-instrumented fuzz target (thorough tier); soundness of the unsafe block for types outside the universe is not proven. A holding body never inserts the held type itself.",
   "DESIGN.md §6 C02")
+CHECKS["C03"] = ("fault_enumeration",
+  "bounded-exhaustive + proptest configuration trees with scripted conditions and every single fault-injection point, against a reference interpreter; builder vs direct-constructor vs clone differential",
+  "Every tree up to the node bound, with every script assignment and every single fault point (the k-th lifecycle event fails, whatever its phase) is run through Configuration::run and compared with an independent reference interpreter on the complete init/require/execute/evaluate trace, the returned error, the registry depth and every caller-visible state (markers incl. shadowed ones, counter, Iterations). Larger random trees with shrinking extend this beyond the bound.",
+  "Trusts the reference interpreter (about 150 lines) and the thread-local tracing components; only single faults are injected; conditions are scripted leaf conditions (And/Or/Not are C10's subject).",
+  "DESIGN.md §6 C03")
